@@ -215,3 +215,4 @@ Proof.
   split; [reflexivity|].
   repeat split; vm_compute; reflexivity.
 Qed.
+Print Assumptions C11_hypotheses_satisfiable.
